@@ -654,13 +654,22 @@ def try_to_hashable(
         return UnhashableError
 
 
+def _sorted(items: Iterable) -> list:
+    """Sort, also when the items have mixed (mutually unorderable) types."""
+    items = list(items)
+    try:
+        return sorted(items)
+    except TypeError:
+        return sorted(items, key=lambda x: (type(x).__name__, repr(x)))
+
+
 def _hashable_iterable(
     iterable: Iterable,
     fallback_to_pickle: bool,  # noqa: FBT001
     *,
     sort: bool = False,
 ) -> tuple:
-    items = sorted(iterable) if sort else iterable
+    items = _sorted(iterable) if sort else iterable
     return tuple(to_hashable(item, fallback_to_pickle) for item in items)
 
 
@@ -670,7 +679,7 @@ def _hashable_mapping(
     *,
     sort: bool = False,
 ) -> tuple:
-    items = sorted(mapping.items()) if sort else mapping.items()
+    items = _sorted(mapping.items()) if sort else mapping.items()
     return tuple((k, to_hashable(v, fallback_to_pickle)) for k, v in items)
 
 
@@ -731,7 +740,7 @@ def to_hashable(  # noqa: C901, PLR0911, PLR0912
         )
         return (m, tp, data)
     if isinstance(obj, collections.Counter):
-        return (m, tp, tuple(sorted(obj.items())))
+        return (m, tp, tuple(_sorted(obj.items())))
     if isinstance(obj, dict):
         return (m, tp, _hashable_mapping(obj, fallback_to_pickle, sort=True))
     if isinstance(obj, set | frozenset):
